@@ -18,6 +18,7 @@ func init() {
 	register(&Rule{ID: "C04.GRAMMAR", Min: 12, Doc: "every production extracted from the parser equals the documented one (automata equivalence)", Run: runC04Grammar})
 	register(&Rule{ID: "C04.LL1", Min: 10, Doc: "wherever a parse function returns depending on the look-ahead, no token that may follow it is excluded", Run: runC04LL1})
 	register(&Rule{ID: "C04.TREE", Min: 12, Doc: "operators are built at their own precedence level with the matching kind and operand order", Run: runC04Tree})
+	register(&Rule{ID: "C04.NUM", Min: 3, Doc: "number tokens are converted with 64-bit conversions (no narrower range than the lexer's language)", Run: runC04Num})
 	register(&Rule{ID: "C04.ONE", Min: 4, Doc: "at most one syntax error is recorded and it is reported once", Run: runC04One})
 }
 
@@ -1111,6 +1112,48 @@ func runC04One(c *Ctx) {
 			c.ok(fname+"|one syntax diagnostic", calls[0].Pos(), "a parse error is reported once and nothing else is checked in that placeholder")
 		} else {
 			c.bad(fname+"|one syntax diagnostic", fn.Pos(), "a syntax error is not reported exactly once")
+		}
+	}
+}
+
+// ---- C04.NUM ----
+
+// Number tokens are converted with the widest conversion the standard library offers; a narrower one rejects sentences of
+// the language (integers that do not fit) although the lexer accepted them.
+func runC04Num(c *Ctx) {
+	p := c.P
+	for _, t := range []struct{ fn, conv string }{{"parseInt", "strconv.ParseInt"}, {"parseFloat", "strconv.ParseFloat"}} {
+		fn := p.Method("ExprParser", t.fn)
+		if fn == nil {
+			c.anchorMissing("(*ExprParser)." + t.fn)
+			continue
+		}
+		n := 0
+		eachInstr(fn, func(_ *ssa.BasicBlock, _ int, in ssa.Instruction) {
+			call, ok := in.(*ssa.Call)
+			if !ok || calleeFullName(&call.Call) != t.conv {
+				return
+			}
+			n++
+			args := call.Call.Args
+			bits, ok := constInt(args[len(args)-1])
+			construct := "(*ExprParser)." + t.fn + "|" + t.conv + " width"
+			if ok && bits == 64 {
+				c.ok(construct, call.Pos(), "64-bit conversion")
+			} else {
+				c.bad(construct, call.Pos(), fmt.Sprintf("the literal is converted with bit size %d: literals that the lexer accepts but that do not fit (e.g. 4000000000) are reported as syntax errors", bits))
+			}
+			if t.fn == "parseInt" {
+				base, ok := constInt(args[1])
+				if ok && base == 0 {
+					c.ok("(*ExprParser).parseInt|base", call.Pos(), "base 0: decimal and 0x forms as lexed")
+				} else {
+					c.bad("(*ExprParser).parseInt|base", call.Pos(), "hex literals accepted by the lexer are not converted")
+				}
+			}
+		})
+		if n == 0 {
+			c.bad("(*ExprParser)."+t.fn+"|conversion", fn.Pos(), "the token text is not converted with "+t.conv)
 		}
 	}
 }
